@@ -312,7 +312,7 @@ func memoForm(path string, key []byte, code uint32, value []byte) string {
 
 type memoKey struct {
 	path, key string
-	h        int64
+	h         int64
 }
 
 func (c *Ctx) c19Deterministic(i int, hr *HistRun, o *HistOpts, cat []queryTpl, rng *rand.Rand) {
